@@ -182,6 +182,7 @@ def run(prog, tier):
     value_searches(prog, chk)
     parser_twin(prog, chk, C, J)
     writer_precision(prog, chk)
+    twin_forms(prog, chk, C, J)
     return chk
 
 
@@ -211,6 +212,36 @@ def parser_twin(prog, chk, C, J):
                'java/compoundData.java:%d' % jm[0]['ln'],
                'the formula scanners reject different inputs: error tests only in C %s, only in Java %s (C %s:%d)' % (
                    dict(a - b), dict(b - a), f['rel'], f['ln']), why='same %d counter / value tests lead to an error' % sum(a.values()))
+    # the atom counts: what is stored into / added to an entry's count, as a multiset of normalised expressions
+    def norm_count(txt):
+        txt = re.sub(r'\s+', '', txt)
+        txt = re.sub(r'\w*(->|\.)singleElements\[(\w+)\]', r'[\2]', txt)
+        txt = re.sub(r'(\w+\.)?get\((\w+)\)', r'[\2]', txt)
+        txt = txt.replace('->', '.').replace('(', '').replace(')', '')
+        return '*'.join(sorted(txt.split('*')))
+
+    def counts(fn, java):
+        out = Counter()
+        for n_ in walk(fn.get('body') or {}):
+            k_ = n_.get('k')
+            if (k_ == 'BinaryOperator' and n_.get('op') in ('=', '+=')) or k_ == 'CompoundAssignOperator':
+                if re.search(r'(\.|->)nAtoms$', show(n_['c'][0]).replace(' ', '')):
+                    out[(n_.get('op'), norm_count(show(n_['c'][1])))] += 1
+            if java and k_ == 'NewExpr' and n_.get('cls') == 'compoundAtom' and len(n_.get('args', [])) == 2:
+                v_ = norm_count(show(n_['args'][1]))
+                if v_ not in ('0.0', '0'):
+                    out[('=', v_)] += 1
+        return out
+    ca_, cb_ = counts(f, False), counts(jm[0], True)
+    # C spells out the empty-list cases (first element; a group adopted into an empty list and scaled in place with *=), a Java List needs
+    # neither: compared as sets, with "scale the adopted group" read as "store count x multiplier"
+    grp = [k_ for k_ in list(ca_) + list(cb_) if k_[0] == '=' and '*' in k_[1]]
+    ca_ = Counter({(('=', grp[0][1]) if k_ == ('*=', 'tempnAtoms') and grp else k_): 1 for k_ in ca_})
+    cb_ = Counter({k_: 1 for k_ in cb_})
+    chk.decide(ca_ == cb_ and sum(ca_.values()) >= 4, 'twin-parser', 'java/compoundData.java', 'CompoundParserSimple', 'atom-counts',
+               'java/compoundData.java:%d' % jm[0]['ln'],
+               'the two scanners store different atom counts: only in C %s, only in Java %s (C %s:%d)' % (dict(ca_ - cb_), dict(cb_ - ca_), f['rel'], f['ln']),
+               why='same %d count expressions (first / existing / new element, with and without group multiplier)' % sum(ca_.values()))
     # the character tests: verdict per (previous class, current class), evaluated on both syntax trees (xvlib/charclass.py)
     from xvlib import charclass
     from xvlib.twins import is_error_exit_c
@@ -318,6 +349,79 @@ def writer_twins(prog, chk, C):
         chk.decide(not diffs, 'writer-copy', W, n, 'same-derivation', '%s:%d' % (W, wf[n]['ln']),
                    'the copy of %s in the Java data writer differs from the original in src/pr_data.c, so the Java tables differ from the C tables: %s' % (
                        n, '; '.join(diffs)[:500]), why='same constants, callees, literals and tables as src/pr_data.c')
+
+
+# pairs whose arithmetic on locals is a literal translation (confirmed by reading; each matched on the reference tree): the formulas
+# that the constants / callee multisets cannot tell apart - which jump ratio divides which, which Tao multiplies which probability
+LOCAL_FORM_PAIRS = ('CS_FluorLine', 'CSb_Photo_Partial', 'ComptonEnergy', 'DCSP_KN', 'DCSP_Thoms', 'DCS_KN', 'DCS_Thoms', 'Jump_from_K',
+                    'Jump_from_L1', 'Jump_from_L2', 'Jump_from_L3', 'LineEnergyComposed', 'Refractive_Index_Im')
+
+
+def local_forms(prog, side, f, alpha=False):
+    """multiset of the normal forms (exact rational normal form, so a*b == b*a) of every right-hand side / compound-assignment operand /
+    returned expression that is arithmetic over locals and parameters only; with alpha=True the locals are renamed in order of first use"""
+    from xvlib.normform import Normalizer, NotInClass, Rat
+    order = {}
+
+    def hook(n, N):
+        k = n.get('k')
+        if k == 'ParenExpr' and n.get('c'):
+            return N.to_rat(n['c'][0])
+        if k == 'DeclRefExpr' and alpha and n.get('cls') in ('local', 'param'):
+            order.setdefault(n.get('id', n.get('name')), 'v%d' % (len(order) + 1))
+            return Rat.sym(order[n.get('id', n.get('name'))])
+        if k == 'MemberExpr' and (n.get('text') or '').startswith('Xraylib.'):
+            return Rat.sym(n['field'])
+        if k in ('CallExpr', 'CXXMemberCallExpr', 'ArraySubscriptExpr'):
+            return Rat.sym('@opaque(')           # marks the form as not local-only
+        return None
+    N = Normalizer(prog, symbol_hook=hook, keep_macros=True)
+    out = Counter()
+
+    def add(prefix, n):
+        try:
+            r = N.to_rat(n)
+        except (NotInClass, KeyError, TypeError):
+            return
+        c = r.canon()
+        if '@opaque(' in c:
+            return
+        if prefix or any(x.get('k') == 'BinaryOperator' and x.get('op') in ('+', '-', '*', '/') for x in walk(n)):
+            out[prefix + c] += 1
+    for n in walk(f.get('body') or {}):
+        k = n.get('k')
+        if k == 'BinaryOperator' and n.get('op') == '=':
+            add('', n['c'][1])
+        elif k == 'CompoundAssignOperator' or (k == 'BinaryOperator' and n.get('op') in ('+=', '-=', '*=', '/=')):
+            add(n.get('op') + ' ', n['c'][1])
+        elif k == 'ReturnStmt' and n.get('c'):
+            add('', n['c'][0])
+        elif k == 'DeclStmt':
+            for d in n.get('decls', []):
+                if isinstance(d, dict) and d.get('init'):
+                    add('', d['init'])
+        elif k == 'var' and n.get('init'):
+            add('', n['init'])
+    return out
+
+
+def twin_forms(prog, chk, C, J):
+    n = 0
+    for name in LOCAL_FORM_PAIRS:
+        if name not in C.funcs or name not in J.funcs:
+            chk.note('twin-forms: pair %s not present on this tree' % name)
+            continue
+        cf, jf = C.funcs[name], J.funcs[name]
+        a, b = local_forms(prog, 'c', cf), local_forms(prog, 'j', jf)
+        ok = a == b
+        if not ok:
+            # a local renamed on one side only is not a difference
+            ok = local_forms(prog, 'c', cf, alpha=True) == local_forms(prog, 'j', jf, alpha=True)
+        n += 1
+        chk.decide(ok and sum(a.values()) >= 1, 'twin-forms', JX, name, 'arithmetic on locals', '%s:%d' % (JX, jf.get('ln', 0)),
+                   'the two translations combine their local values differently: only in C %s, only in Java %s (C %s:%d)' % (
+                       dict(a - b), dict(b - a), cf['rel'], cf['ln']), why='same %d local formulas' % sum(a.values()))
+    chk.floor('pairs with literal local arithmetic', n, 10)
 
 
 def writer_precision(prog, chk):
@@ -464,6 +568,34 @@ def cs_energy_limit(prog):
 
 
 # --------------------------------------------------------------------------------------------------------------- layout
+def file_constants(prog, J=None):
+    """The scalar constants that Xraylib.java does not spell out but reads from the head of the table file (ZMAX ... R_E): for each
+    position, the Java field that receives the value and the macro the writer's local was initialised from.
+    Returns [(java field, java line, writer local, writer macro or None, writer line)] or None when the layouts cannot be read."""
+    from xvlib.layout import Writer, Reader, Valuer, finish, normalise_names
+    J = J or JavaSide(prog)
+    wi, ri = Writer(prog).run(), Reader(J).run()
+    if wi is None or ri is None:
+        return None
+    main = [x for u in prog.units if u.get('rel') == 'java/pr_data_java.c' for x in u['functions'] if x['name'] == 'main']
+    if not main:
+        return None
+    inits = {}
+    for n in walk(main[0]['body']):
+        if n.get('k') == 'DeclStmt':
+            for d in n.get('decls', []):
+                if isinstance(d, dict) and d.get('init') is not None:
+                    i0 = strip_casts(d['init'])
+                    inits[d['name'].upper()] = (i0['m'][-1] if i0.get('mw') and i0.get('m') else None, show(i0)[:40])
+    out = []
+    for a, b in zip(wi, ri):
+        if a[1] != '1' or b[1] != '1' or a[3] or b[3]:
+            break                      # the scalar head of the file ends at the first table
+        if a[2].upper() in inits:
+            out.append((b[2], b[5], a[2], inits[a[2].upper()][0], a[5], inits[a[2].upper()][1]))
+    return out
+
+
 def layout(prog, chk, J):
     """Ordered schema of the binary table file: writer (java/pr_data_java.c main, print helpers inlined, macros expanded)
     against reader (Xraylib.XRayInit with the read helpers and the record constructors inlined)."""
@@ -483,6 +615,13 @@ def layout(prog, chk, J):
     chk.floor('layout items read', len(ri), 90)
     for pr in r.problems[:3]:
         chk.inconclusive('layout', JX, pr)
+    fc = file_constants(prog, J) or []
+    chk.floor('scalar constants at the head of the table file', len(fc), 10)
+    for jf_, jl_, wl_, wm_, wln_, wtxt_ in fc:
+        chk.decide(wm_ == jf_, 'layout-scalar-source', W, 'main', jf_, '%s:%s' % (W, wln_),
+                   'Xraylib.%s is read from the table file, and the writer fills that position from its local "%s", which is initialised with %s '
+                   'instead of the macro %s: the Java constant gets another constant\'s value' % (jf_, wl_.lower(), wm_ or wtxt_, jf_),
+                   why='written from the macro %s' % jf_)
     d = compare(wi, ri)
     if d is None:
         for i, it in enumerate(wi):
